@@ -34,7 +34,20 @@ EXPLANATION = (
 
 ATOL0 = 1e-8
 RTOL_BRENTQ = Fraction(1, 2 ** 50)
-TNUCL = 64.0
+TNUCL = 64.0          # default; cases carry their own (also non-dyadic) "Tn"
+TAG = 2.0 ** -60      # evaluation tag carried in offsets[0] (which is identically 0 otherwise)
+
+
+def tn_of(case):
+    return float(case.get("Tn", TNUCL))
+
+
+def wraw_of(case):
+    """wallThicknessBounds as configured (units 1/Tnucl); case["wbounds"] holds the values the
+    code compares with, i.e. the float quotients raw/Tnucl"""
+    if "wraw" in case:
+        return tuple(float(x) for x in case["wraw"])
+    return (float(case["wbounds"][0]) * TNUCL, float(case["wbounds"][1]) * TNUCL)
 
 
 def known_or_note(ctx, key, what, rep):
@@ -113,6 +126,10 @@ def find_seg(segs, v):
     return cur
 
 
+class _Template:
+    epsilon = 1.0
+
+
 class _Bg:
     def __init__(self, tag):
         self.velocityProfile = tag
@@ -120,21 +137,32 @@ class _Bg:
         self.temperatureProfile = tag
 
 
-class _Template:
-    epsilon = 1.0
-
-
-def synth_tuple(seg, v, tag, widths_id):
+def synth_tuple(seg, v, tag, widths_id=None):
+    """the five objects one wallPressure call returns; every one of them carries the number of
+    the evaluation BY VALUE (offsets[0], identically zero otherwise, holds tag * 2**-60)"""
     from WallGo.containers import WallParams
     from WallGo.results import BoltzmannResults, HydroResults
     w = np.array([float(x) for x in seg.widths])
     o = np.array([float(x) for x in seg.offsets])
-    widths_id[id(w)] = tag
+    assert o[0] == 0.0
+    o[0] = tag * TAG
     return (float(seg.p(v)), WallParams(widths=w, offsets=o),
-            BoltzmannResults(deltaF=np.array([float(tag)]), Deltas=0.0, truncationError=0.0,
-                             linearizationCriterion1=np.zeros(1),
-                             linearizationCriterion2=np.zeros(1)),
+            BoltzmannResults(deltaF=np.array([float(tag)]), Deltas=float(tag),
+                             truncationError=float(tag),
+                             linearizationCriterion1=np.array([float(tag)]),
+                             linearizationCriterion2=np.array([float(tag)])),
             _Bg(tag), HydroResults(float(seg.Tplus), float(seg.Tminus), float(tag)))
+
+
+def result_tags(res, rt=lambda t: t):
+    """evaluation number carried by every field of a WallGoResults"""
+    return dict(hydro=rt(int(res.velocityJouguet)), bgV=rt(int(res.velocityProfile)),
+                bgF=rt(int(res.fieldProfiles)), bgT=rt(int(res.temperatureProfile)),
+                deltaF=rt(int(res.deltaF[0])), Deltas=rt(int(res.Deltas)),
+                trunc=rt(int(res.truncationError)),
+                lin1=rt(int(res.linearizationCriterion1[0])),
+                lin2=rt(int(res.linearizationCriterion2[0])),
+                params=rt(int(round(float(res.wallOffsets[0]) / TAG))))
 
 
 def make_stub_eom(case):
@@ -151,7 +179,7 @@ def make_stub_eom(case):
     bs.grid = grid
     bs.offEqParticles = []
     th = object.__new__(Thermodynamics)
-    th.Tnucl = TNUCL
+    th.Tnucl = tn_of(case)
     hy = object.__new__(Hydrodynamics)
     hy.vJ = float(case["vJ"])
     hy.vMin = float(case["vmin"])
@@ -160,10 +188,10 @@ def make_stub_eom(case):
     hy.findvwLTE = lambda: lte
     hy.TMinLowT, hy.TMaxLowT = float(case["TLow"][0]), float(case["TLow"][1])
     hy.TMinHighT, hy.TMaxHighT = float(case["THigh"][0]), float(case["THigh"][1])
-    hy.doesPhaseTraceLimitvmax = [False, False]
+    hy.doesPhaseTraceLimitvmax = list(case.get("traceLimit", [False, False]))
     hy.template = _Template()
     eom = EOM(bs, th, hy, grid, case["nf"], 1.0,
-              (float(case["wbounds"][0]) * TNUCL, float(case["wbounds"][1]) * TNUCL),
+              wraw_of(case),
               (float(case["obounds"][0]), float(case["obounds"][1])),
               includeOffEq=False, forceEnergyConservation=True, forceImproveConvergence=False,
               errTol=float(case["errTol"]), maxIterations=20,
@@ -183,8 +211,9 @@ class Harness:
         self.case = case
         self.segs = case["segs"]
         self.eom = make_stub_eom(case)
+        self.hydro_before = dict(self.eom.hydrodynamics.__dict__)
+        self.thermo_before = dict(self.eom.thermo.__dict__)
         self.log = []
-        self.widths_id = {}
         self.recs = []          # one per root_scalar call
         eom, segs, log = self.eom, self.segs, self.log
 
@@ -198,7 +227,7 @@ class Harness:
             log.append(dict(v=float(vw), atol=float(a),
                             guess=[float(x) for x in wallParams.widths] +
                                   [float(x) for x in wallParams.offsets]))
-            return synth_tuple(s, Fraction(float(vw)), n, self.widths_id)
+            return synth_tuple(s, Fraction(float(vw)), n)
 
         eom.wallPressure = wallPressure
 
@@ -238,22 +267,35 @@ class Harness:
         self._so.root_scalar = self._orig
         return False
 
+    def collaborators_untouched(self):
+        """the shared Hydrodynamics / Thermodynamics objects are only read by the EOM"""
+        bad = []
+        for name, obj, before in (("hydrodynamics", self.eom.hydrodynamics, self.hydro_before),
+                                  ("thermo", self.eom.thermo, self.thermo_before)):
+            now = obj.__dict__
+            for k in set(now) | set(before):
+                a, b = before.get(k, "<absent>"), now.get(k, "<absent>")
+                if not (a is b or (not callable(a) and a == b)):
+                    bad.append("%s.%s: %r -> %r" % (name, k, a, b))
+        return bad
+
     def observe(self, res, log, rec, raised=None, retag=None):
         eom = self.eom
         obs = dict(raised=raised, log=log, rec=rec or dict(called=False),
+                   touched=self.collaborators_untouched(),
                    flags=[bool(eom.successTemperatureProfile), bool(eom.successWallPressure)],
                    atolEnd=float(eom.pressAbsErrTol))
         if res is not None:
-            rt = retag or (lambda t: t)
-            tags = dict(hydro=rt(int(res.velocityJouguet)), bg=rt(int(res.velocityProfile)),
-                        boltz=rt(int(res.deltaF[0])),
-                        params=rt(self.widths_id.get(id(res.wallWidths), -99)))
+            tags = result_tags(res, retag or (lambda t: t))
+            offs = [float(x) for x in res.wallOffsets]
+            offs[0] = 0.0
             obs.update(success=res.success, type=res.solutionType.name,
                        message=str(res.message), velocity=res.wallVelocity,
                        velErr=res.wallVelocityError, vLTE=res.wallVelocityLTE, tags=tags,
                        Tplus=float(res.temperaturePlus), Tminus=float(res.temperatureMinus),
-                       widths=[float(x) for x in res.wallWidths],
-                       offsets=[float(x) for x in res.wallOffsets])
+                       widths=[float(x) for x in res.wallWidths], offsets=offs,
+                       fd_same=(res.deltaFFiniteDifference is res.deltaF
+                                if res.wallVelocity is not None else True))
         return obs
 
 
@@ -275,10 +317,10 @@ def run_impl(case):
                 gmin = gmax = None
                 if case.get("givenMin") is not None:
                     v = Fraction(case["vmin"])
-                    gmin = synth_tuple(find_seg(segs, v), v, -2, h.widths_id)
+                    gmin = synth_tuple(find_seg(segs, v), v, -2)
                 if case.get("givenMax") is not None:
                     v = Fraction(case["vmax"])
-                    gmax = synth_tuple(find_seg(segs, v), v, -1, h.widths_id)
+                    gmax = synth_tuple(find_seg(segs, v), v, -1)
                 res = eom.solveWall(float(case["vmin"]), float(case["vmax"]), guess, gmin, gmax)
         except ValueError as e:
             raised = repr(e)
@@ -333,6 +375,7 @@ def run_deton(case):
                               for r in lst]
         except (ValueError, ArithmeticError, AssertionError) as e:
             out["raised"] = repr(e)
+            out["raised_in"] = [f.name for f in traceback.extract_tb(e.__traceback__)]
     out["log"] = log
     out["calls"] = calls
     return out
@@ -416,7 +459,8 @@ def coq_case(case, obs):
     s0 = "(mkState %s %s %s)" % (vlib.coq_Q(float(case["s0"][0])), b(case["s0"][1]),
                                  b(case["s0"][2]))
     if case["mode"] == "deflag":
-        thick = Fraction(case["thick"]) if case.get("thick") is not None else Fraction(5) / Fraction(TNUCL)
+        thick = Fraction(case["thick"]) if case.get("thick") is not None \
+            else Fraction(5 / tn_of(case))
         run = "findDeflag %s %s (cfg %s) %s %s %s %s %d%%nat 64%%nat" % (
             P, rf, base, s0, vlib.coq_Q(case["vmin"]), vlib.coq_Q(case["fastest"]),
             vlib.coq_Q(thick), nf)
@@ -474,12 +518,18 @@ def gen_case(rng, scenario=None):
     fastest = vmax
     scenario = scenario or rng.choice(
         ["root"] * 8 + ["runaway", "doubling", "doubling", "positive", "multi", "multi",
-                        "zero_end", "nonconv", "random", "random", "random", "degenerate"])
-    if scenario == "degenerate":
-        mode = rng.choice(["direct", "given", "deflag"])
+                        "zero_end", "nonconv", "random", "random", "random"])
+    if scenario and scenario.startswith("degenerate"):
+        mode = scenario.split(":")[1] if ":" in scenario else rng.choice(
+            ["direct", "given", "deflag"])
+        scenario = "degenerate"
     if mode != "deflag" and rng.random() < 0.4:
         vJ = Fraction(rng.randint(100, 400), 1024)     # detonation-typed roots
-    wlo, whi = Fraction(1, 128), Fraction(10)
+    # nucleation temperature (also non-dyadic: bound/Tn is then a rounded quotient) and the
+    # configured thickness bounds; the model gets the float quotients the code compares with
+    Tn = rng.choice([64.0, 83.0, 100.0, 7.3, 0.3])
+    wraw = (rng.choice([0.1, 0.5]), rng.choice([100.0, 7.0, 640.0]))
+    wlo, whi = Fraction(wraw[0] / Tn), Fraction(wraw[1] / Tn)
     olo, ohi = Fraction(-10), Fraction(10)
     TLow, THigh = (Fraction(50), Fraction(120)), (Fraction(60), Fraction(150))
 
@@ -565,6 +615,7 @@ def gen_case(rng, scenario=None):
                 segs.append(mkseg(x, Fraction(rng.randint(-40, 40), 8),
                                   Fraction(rng.randint(-40, 160), 4)))
     # decorate the root-phase flags / outputs with one fault (or none)
+    # (offsets[0] carries the evaluation tag and is never a bound: offset faults need nf > 1)
     fault = rng.choice(["none"] * 6 + ["tprof", "press", "TminusLo", "TminusHi", "TplusLo",
                                       "TplusHi", "widthLo", "widthHi", "offLo", "offHi",
                                       "two"])
@@ -586,9 +637,15 @@ def gen_case(rng, scenario=None):
         if fault == "widthHi":
             s.widths[0] = whi
         if fault == "offLo":
-            s.offsets[-1] = olo
+            if nf > 1:
+                s.offsets[-1] = olo
+            else:
+                s.widths[0] = wlo
         if fault == "offHi":
-            s.offsets[-1] = ohi
+            if nf > 1:
+                s.offsets[-1] = ohi
+            else:
+                s.widths[0] = whi
     # boundary values of the ranges are inside (inclusive comparison)
     if fault == "none" and rng.random() < 0.2:
         for s in segs:
@@ -596,7 +653,8 @@ def gen_case(rng, scenario=None):
     case = dict(nf=nf, errTol=errTol, rel=rel, mode=mode, vmin=vmin, vmax=vmax, vJ=vJ,
                 fastest=fastest, vLTE=dy(rng, 0.1, 0.9, 64), segs=segs, scenario=scenario,
                 fault=fault, maxiter=maxiter, TLow=TLow, THigh=THigh, wbounds=(wlo, whi),
-                obounds=(olo, ohi),
+                obounds=(olo, ohi), Tn=Tn, wraw=wraw,
+                traceLimit=[rng.random() < 0.2, rng.random() < 0.2],
                 s0=(rng.choice([0.0, 1e-8, 3.5, 1e-3]), rng.random() < 0.5, rng.random() < 0.5),
                 g0=([dy(rng, 1, 4, 16) for _ in range(nf)], [Fraction(0)] * nf),
                 thick=rng.choice([None, float(dy(rng, 1, 4, 16))]),
@@ -641,10 +699,18 @@ def direct_synthetic(ctx, case, obs):
     rec = obs["rec"]
     vmin, vmax = window(case)
     errTol = Fraction(float(case["errTol"]))
+    if obs.get("touched"):
+        fail(ctx, "solveWall modified a shared collaborator: %s" % "; ".join(obs["touched"]),
+             dict(kind="synthetic", case=cj), key="collaborator-mutated")
     if obs["raised"]:
         # only the degenerate bracket may raise (known corner, see the Props file)
         k, v = bracket_phase_counts(case, obs)
-        if not (v < vmax and vmax - v < Fraction(1, 10 ** 10)):
+        if v < vmax and vmax - v < Fraction(1, 10 ** 10) and "different signs" in obs["raised"]:
+            known_or_note(ctx, "degenerate-bracket-raises",
+                          "EOM.solveWall lets ValueError('f(a) and f(b) must have different "
+                          "signs') escape: doubled lower end %r within 1e-10 of the upper end %r"
+                          % (float(v), float(vmax)), dict(kind="synthetic", case=cj))
+        else:
             fail(ctx, "solveWall raised %s on a non-degenerate bracket" % obs["raised"],
                            dict(kind="synthetic", case=cj), key="raises")
         return
@@ -653,6 +719,10 @@ def direct_synthetic(ctx, case, obs):
         fail(ctx, "success=%s but solutionType=%s" % (obs["success"], obs["type"]),
                        dict(kind="synthetic", case=cj), key="label")
     tags = obs["tags"]
+    if obs.get("fd_same") is False:
+        fail(ctx, "equilibrium mode: the finite-difference Boltzmann results are not the "
+                  "results of the final evaluation", dict(kind="synthetic", case=cj),
+             key="mixed-sources")
     if len(set(tags.values())) != 1:
         fail(ctx, "returned fields come from different evaluations: %s" % tags,
                        dict(kind="synthetic", case=cj), key="mixed-sources")
@@ -756,7 +826,9 @@ def gen_deton_case(rng, scenario=None):
         c_ = vmin + span * Fraction(rng.randint(44, 58), 64)
         segs = [mkseg(0, -2, 0), mkseg(a, 3, 0), mkseg(b_, -4, 0), mkseg(c_, 5, 1)]
     fault = rng.choice(["none"] * 5 + ["tprof", "press", "TminusLo", "TplusHi", "widthHi"])
-    wlo, whi = Fraction(1, 128), Fraction(10)
+    Tn = rng.choice([64.0, 83.0, 7.3])
+    wraw = (0.1, rng.choice([100.0, 7.0]))
+    wlo, whi = Fraction(wraw[0] / Tn), Fraction(wraw[1] / Tn)
     TLow, THigh = (Fraction(50), Fraction(120)), (Fraction(60), Fraction(150))
     for sg in segs:
         if fault == "tprof":
@@ -772,7 +844,7 @@ def gen_deton_case(rng, scenario=None):
     return dict(nf=nf, errTol=errTol, rel=rng.choice([0.1, 0.01]), mode="deton", vmin=vmin,
                 vmax=vmax, vJ=vJ, fastest=vJ, vLTE=dy(rng, 0.1, 0.9, 64), segs=segs,
                 scenario="deton-" + scenario, fault=fault, maxiter=None, TLow=TLow, THigh=THigh,
-                wbounds=(wlo, whi), obounds=(Fraction(-10), Fraction(10)),
+                wbounds=(wlo, whi), obounds=(Fraction(-10), Fraction(10)), Tn=Tn, wraw=wraw,
                 s0=(rng.choice([0.0, 1e-8, 3.5]), rng.random() < 0.5, rng.random() < 0.5),
                 g0=([Fraction(1)] * nf, [Fraction(0)] * nf),
                 thick=rng.choice([None, float(dy(rng, 1, 4, 16))]),
@@ -797,7 +869,8 @@ def direct_deton(ctx, case, out):
         scan0 = [e for e in log if e["atol"] == 0.0]
         zero = [e["v"] for e in scan0
                 if find_seg(segs, Fraction(e["v"])).p(Fraction(e["v"])) == 0]
-        if "ZeroDivisionError" in out["raised"] and zero:
+        if "ZeroDivisionError" in out["raised"] and zero and \
+                "nextStepDeton" in out.get("raised_in", []):
             known_or_note(ctx, "deton-zero-pressure-scan-point",
                           "EOM.findWallVelocityDetonation lets ZeroDivisionError escape from "
                           "helpers.nextStepDeton (pressure1 /= abs(pressure2)) when a scan point "
@@ -806,7 +879,7 @@ def direct_deton(ctx, case, out):
                           "%r" % zero[0], rep)
         else:
             fail(ctx, "findWallVelocityDetonation raised %s" % out["raised"], rep, key="raises")
-        return subs
+        # the solveWall calls made before the exception are judged all the same (below)
     for c in out["calls"]:
         vlo, vhi = Fraction(c["vlo"]), Fraction(c["vhi"])
         ctx.count("deton_solveWall_call")
@@ -836,6 +909,8 @@ def direct_deton(ctx, case, out):
                 fail(ctx, "detonation search: success at v=%r typed %s (vJ=%s)" % (
                     obs["velocity"], obs["type"], float(vJ)), rep, key="window")
         subs.append((sub, obs))
+    if out["raised"]:
+        return subs
     res = out["results"]
     scan = [e for e in log if e["atol"] == 0.0]
     pIni = find_seg(segs, vmin).p(vmin)
@@ -878,8 +953,11 @@ def correspondence(ctx, proved):
     rng = ctx.rng
     n = ctx.n(260, 5000)
     terms, kept = [], []
+    # the degenerate-bracket corner (known finding) is visited a FIXED number of times per run,
+    # once per call style, so that the number of hits of that class is the same on every seed
     scen = ["root", "runaway", "doubling", "positive", "multi", "zero_end", "nonconv",
-            "degenerate"]
+            "degenerate:direct", "degenerate:given", "degenerate:deflag"] + \
+           ([] if ctx.quick else ["degenerate:direct"])
     for i in range(n):
         case = gen_case(rng, scenario=scen[i] if i < len(scen) else None)
         try:
@@ -1066,13 +1144,14 @@ def settings(thick=5.0):
 
 
 def summary(r):
+    f = lambda x: None if x is None else float(x)
+    g = lambda name: getattr(r, name, None)
+    arr = lambda x: None if x is None else [float(y) for y in np.atleast_1d(x)]
     return dict(success=bool(r.success), type=r.solutionType.name, message=r.message,
-                vw=None if r.wallVelocity is None else float(r.wallVelocity),
-                err=None if r.wallVelocityError is None else float(r.wallVelocityError),
-                lte=float(r.wallVelocityLTE), Tplus=float(r.temperaturePlus),
-                Tminus=float(r.temperatureMinus), vJ=float(r.velocityJouguet),
-                widths=[float(x) for x in r.wallWidths],
-                offsets=[float(x) for x in r.wallOffsets])
+                vw=f(g("wallVelocity")), err=f(g("wallVelocityError")),
+                lte=f(g("wallVelocityLTE")), Tplus=f(g("temperaturePlus")),
+                Tminus=f(g("temperatureMinus")), vJ=f(g("velocityJouguet")),
+                widths=arr(g("wallWidths")), offsets=arr(g("wallOffsets")))
 
 
 POINT_A = dict(D=0.2, E=0.05, lam=0.1, T0=80.0, g=100.0)
@@ -1081,13 +1160,16 @@ TN = 83.0
 
 
 def e2e_sign_and_window(ctx, params, errTol, res, label, M=20, calls=None, maxIter=None,
-                        thick=5.0, Tn=TN):
+                        thick=5.0, Tn=TN, conf=None):
     """property on one result: window, labelling, pressure sign change at vw -+ k errTol on a
     FRESH EOM of a FRESH manager"""
     from WallGo.containers import WallParams
     rep = dict(kind="e2e", params=params, Tn=Tn, errTol=errTol, M=M, label=label,
                maxIter=maxIter, thick=thick, result=summary(res))
     m2, model2 = new_manager(params, errTol, M, maxIter)
+    for k_, v_ in (conf or {}).items():
+        setattr(m2.config.configEOM, k_, v_)
+    rep["configEOM"] = conf
     set_point(m2, model2, params, Tn)
     hyd = m2.hydrodynamics
     if (res.solutionType.name == "ERROR") != (not res.success):
@@ -1146,6 +1228,14 @@ def e2e_sign_and_window(ctx, params, errTol, res, label, M=20, calls=None, maxIt
         ctx.count("e2e_pressure_eval")
     rep["pressures"] = ps
     rep["widths_reevaluated"] = wout
+    # tolerance margin of the sign test: distance of the (linearly interpolated) zero from the
+    # reported velocity in units of the half-width 2*errTol of the test interval (< 1 = pass)
+    for name, pp in (("returned_wallParams", ps), ("solver_guess", ps_solver)):
+        if pp and pp[2] != pp[-2]:
+            off = abs((pp[2] + pp[-2]) / (pp[2] - pp[-2]))
+            ctx.cov.setdefault("margins", []).append(
+                dict(test="sign change at vw-+2errTol (%s)" % name, label=label, errTol=errTol,
+                     zero_offset_over_halfwidth=round(off, 4)))
     if ps_solver is not None and not (ps_solver[-2] < 0 < ps_solver[2]):
         fail(ctx,
              "e2e: pressure (solver's own first guess and tolerance, fresh EOM) does not change "
@@ -1160,18 +1250,82 @@ def e2e_sign_and_window(ctx, params, errTol, res, label, M=20, calls=None, maxIt
                      "wallPressure (re-evaluated widths %s vs returned %s)" % (
                          calls[-1]["guess"][0], ps_solver[-2], ps_solver[2], wout[2],
                          [float(x) for x in res.wallWidths]))
-        fail(ctx,
-             "e2e: pressure does not change sign within 2*errTol of the reported velocity: "
-             "P(%r - 2*%g) = %.6g, P(vw + 2*%g) = %.6g  [%s]%s" % (
-                 vw, errTol, ps[-2], errTol, ps[2], label, extra),
-             rep, key="no-sign-change" if ps_solver is None else
-             "no-sign-change-from-returned-wallParams")
+        what = ("e2e: pressure does not change sign within 2*errTol of the reported velocity: "
+                "P(%r - 2*%g) = %.6g, P(vw + 2*%g) = %.6g  [%s]%s" % (
+                    vw, errTol, ps[-2], errTol, ps[2], label, extra))
+        frozen = (conf or {}).get("conserveEnergyMomentum") is False
+        if frozen and ps_solver is not None and ps_solver[-2] < 0 < ps_solver[2]:
+            # known class (narrow): profiles frozen (conserveEnergyMomentum=False), the
+            # solver's-own-guess test passes, only the returned-wallParams recipe fails
+            known_or_note(ctx, "frozen-profiles-root-depends-on-guess", what, rep)
+        else:
+            fail(ctx, what, rep, key="no-sign-change" if ps_solver is None else
+                 "no-sign-change-from-returned-wallParams")
     # T+, T- returned are those of the hydrodynamic matching at the returned velocity
     c1, c2, Tp, Tm, vmid = hyd.findHydroBoundaries(vw)
     if abs(Tp - res.temperaturePlus) > 1e-9 * Tp or abs(Tm - res.temperatureMinus) > 1e-9 * Tm:
         fail(ctx, "e2e: returned T+/T- (%r, %r) are not those at the returned velocity "
                        "(%r, %r)" % (res.temperaturePlus, res.temperatureMinus, Tp, Tm), rep,
                        key="not-final-eval")
+
+
+def snapshot(obj, depth=0):
+    """plain nested structure of a config / settings object, for before/after comparison"""
+    if depth > 6:
+        return repr(obj)
+    if isinstance(obj, (int, float, str, bool, type(None))):
+        return (type(obj).__name__, obj)
+    if isinstance(obj, (list, tuple)):
+        return [type(obj).__name__] + [snapshot(x, depth + 1) for x in obj]
+    if isinstance(obj, dict):
+        return {str(k): snapshot(v, depth + 1) for k, v in sorted(obj.items(), key=str)}
+    if isinstance(obj, np.ndarray):
+        return ("ndarray", obj.tolist())
+    if hasattr(obj, "__dict__"):
+        return {k: snapshot(v, depth + 1) for k, v in sorted(vars(obj).items())}
+    return repr(obj)
+
+
+class Unchanged:
+    """the manager's config, the WallSolverSettings and the identity of its model /
+    thermodynamics / hydrodynamics must be the same after a solver call as before"""
+
+    def __init__(self, ctx, m, S, label, rep):
+        self.ctx, self.m, self.S, self.label, self.rep = ctx, m, S, label, rep
+
+    def __enter__(self):
+        import copy
+        m = self.m
+        self.config_before = copy.deepcopy(m.config)
+        self.before = (snapshot(m.config), snapshot(self.S) if self.S is not None else None)
+        self.ids = (id(m.model), id(m.thermodynamics), id(m.hydrodynamics), id(m.phasesAtTn))
+        self.params = dict(m.model.modelParameters)
+        return self
+
+    def __exit__(self, et, ev, tb):
+        m = self.m
+        after = (snapshot(m.config), snapshot(self.S) if self.S is not None else None)
+        bad = []
+        if after != self.before:
+            def diff(a, b, path=""):
+                if isinstance(a, dict) and isinstance(b, dict):
+                    for k in sorted(set(a) | set(b)):
+                        diff(a.get(k), b.get(k), path + "." + k)
+                elif a != b:
+                    bad.append("%s: %r -> %r" % (path, a, b))
+            diff(self.before[0], after[0], "config")
+            diff(self.before[1], after[1], "settings")
+        if self.ids != (id(m.model), id(m.thermodynamics), id(m.hydrodynamics),
+                        id(m.phasesAtTn)):
+            bad.append("model/thermodynamics/hydrodynamics/phasesAtTn object replaced")
+        if self.params != dict(m.model.modelParameters):
+            bad.append("model parameters changed")
+        self.ctx.count("e2e_unchanged_guard")
+        if bad:
+            fail(self.ctx, "e2e [%s]: the call changed the manager's settings: %s" % (
+                self.label, "; ".join(bad)), dict(self.rep, label=self.label, mutated=bad),
+                key="settings-mutated")
+        return False
 
 
 def recorded_solve(m, S):
@@ -1182,8 +1336,10 @@ def recorded_solve(m, S):
     from WallGo.equationOfMotion import EOM
     orig = EOM.wallPressure
     orig_rs = scipy.optimize.root_scalar
+    import copy
     calls = []
-    spy = dict(eoms=[], xtol=[])
+    spy = dict(eoms=[], xtol=[], config_before=copy.deepcopy(m.config),
+               settings_before=copy.deepcopy(S))
 
     def wallPressure(self, wallVelocity, wallParams, atol=None, rtol=None,
                      boltzmannResultsInput=None):
@@ -1246,9 +1402,17 @@ def check_settings(ctx, m, S, res, rep, label):
     """the EOM that just solved was built from the manager's CURRENT settings and objects, the
     root finder got the configured tolerance, the reported error is errTol * vw"""
     spy = recorded_solve.spy
-    ce, cg = m.config.configEOM, m.config.configGrid
+    # what was configured BEFORE the call (a call that rewrites the config must not be able to
+    # make itself consistent), and the config must still be that afterwards
+    cb = spy["config_before"]
+    ce, cg = cb.configEOM, cb.configGrid
     ctx.count("e2e_settings_spy")
     bad = []
+    if snapshot(m.config) != snapshot(cb):
+        bad.append("the call changed the manager's config")
+    if snapshot(S) != snapshot(spy["settings_before"]):
+        bad.append("the call changed the WallSolverSettings")
+    S = spy["settings_before"]
     if len(spy["eoms"]) != 1:
         bad.append("%d EOM objects evaluated the pressure" % len(spy["eoms"]))
     for eom in spy["eoms"]:
@@ -1302,18 +1466,21 @@ def e2e_history(ctx, errTol, thorough_extra=False):
     sA1 = summary(rA1)
     ctx.count("e2e_solve", dict(point="A", errTol=errTol))
     rep = dict(kind="history", errTol=errTol, A=POINT_A, B=POINT_B, Tn=TN)
-    sA2 = summary(m.solveWall(S))
+    with Unchanged(ctx, m, S, "solveWall (repeat)", dict(rep, history=list(hist))):
+        sA2 = summary(m.solveWall(S))
     hist.append("solveWall@A")
     ctx.count("e2e_solve")
     if not same(sA1, sA2):
         fail(ctx, "repeating solveWall on the same manager changed the result: %s vs %s"
                        % (sA1, sA2), dict(rep, history=list(hist)), key="history")
-    lte = m.wallSpeedLTE()
+    with Unchanged(ctx, m, None, "wallSpeedLTE", dict(rep, history=list(hist))):
+        lte = m.wallSpeedLTE()
     hist.append("wallSpeedLTE")
     try:
-        det, dargs = detonation_spied(m, S)
+        with Unchanged(ctx, m, S, "solveWallDetonation", dict(rep, history=list(hist))) as g:
+            det, dargs = detonation_spied(m, S)
         hist.append("solveWallDetonation")
-        hyd, ce = m.hydrodynamics, m.config.configEOM
+        hyd, ce = m.hydrodynamics, g.config_before.configEOM
         drep = dict(rep, history=list(hist), detonation_args=dargs)
         ctx.count("e2e_detonation")
         want_lo = max(hyd.vJ + 1e-3, hyd.slowestDeton())
@@ -1338,6 +1505,25 @@ def e2e_history(ctx, errTol, thorough_extra=False):
                     "RUNAWAY", "DEFLAGRATION", "DEFLAGRATION_OR_RUNAWAY")):
                 fail(ctx, "detonation search without velocity: success=%s type=%s" % (
                     d.success, d.solutionType.name), drep, key="label")
+        # the same search on a manager that has seen nothing else
+        mfd, modelfd = new_manager(POINT_A, errTol)
+        set_point(mfd, modelfd, POINT_A, TN)
+        detf = mfd.solveWallDetonation(S)
+        if [summary(x) for x in det] != [summary(x) for x in detf]:
+            fail(ctx, "solveWallDetonation depends on call history: %s after %s, %s on a fresh "
+                      "manager" % ([summary(x)["type"] for x in det], " -> ".join(hist[:-1]),
+                                   [summary(x)["type"] for x in detf]), drep, key="history")
+        # a runaway verdict: the pressure at the top of the searched window is negative
+        if len(det) == 1 and det[0].solutionType.name == "RUNAWAY" and dargs:
+            from WallGo.containers import WallParams
+            e3 = mfd.setupWallSolver(S).eom
+            g3 = WallParams(widths=np.array([S.wallThicknessGuess / TN]), offsets=np.zeros(1))
+            ptop = float(e3.wallPressure(dargs["vmax"], g3, 0, dargs["rtol"], None)[0])
+            ctx.count("e2e_pressure_eval")
+            if not ptop < 0:
+                fail(ctx, "solveWallDetonation reports RUNAWAY but the pressure at the top of "
+                          "the searched window (v=%r) is %r" % (dargs["vmax"], ptop), drep,
+                     key="runaway")
     except Exception as e:   # noqa
         ctx.log("solveWallDetonation raised", repr(e))
         ctx.broken.append("harness: solveWallDetonation raised %r" % e)
@@ -1409,17 +1595,38 @@ def e2e_history(ctx, errTol, thorough_extra=False):
     return sA1, sB
 
 
-def e2e_tolerance(ctx, errTol, params=POINT_A, M=20, maxIter=None):
+def e2e_tolerance(ctx, errTol, params=POINT_A, M=20, maxIter=None, conf=None):
     m, model = new_manager(params, errTol, M, maxIter)
+    for k_, v_ in (conf or {}).items():
+        setattr(m.config.configEOM, k_, v_)
     set_point(m, model, params, TN)
     S = settings()
     r, calls = recorded_solve(m, S)
-    label = "single solve errTol=%g M=%d%s" % (errTol, M, "" if maxIter is None else
-                                               " maxIterations=%d" % maxIter)
+    label = "single solve errTol=%g M=%d%s%s" % (
+        errTol, M, "" if maxIter is None else " maxIterations=%d" % maxIter,
+        "" if not conf else " " + " ".join("%s=%s" % kv for kv in sorted(conf.items())))
     check_settings(ctx, m, S, r, dict(kind="e2e", params=params, Tn=TN, errTol=errTol, M=M,
-                                      maxIter=maxIter), label)
-    ctx.count("e2e_solve", dict(point=params, errTol=errTol, M=M, maxIter=maxIter),
+                                      maxIter=maxIter, configEOM=conf), label)
+    ctx.count("e2e_solve", dict(point=params, errTol=errTol, M=M, maxIter=maxIter, conf=conf),
               bucket="%s/%s" % (r.solutionType.name, "ok" if r.success else "fail"))
+    # bounds that bind: a returned wall parameter sitting on a configured bound (to rounding)
+    # must have been labelled as an error
+    ce = m.config.configEOM
+    on_bound = []
+    for w in np.atleast_1d(r.wallWidths):
+        for b_ in ce.wallThicknessBounds:
+            if abs(float(w) * TN - b_) <= 1e-9 * abs(b_):
+                on_bound.append("width*Tn=%r ~ %r" % (float(w) * TN, b_))
+    for o in np.atleast_1d(r.wallOffsets)[1:]:
+        for b_ in ce.wallOffsetBounds:
+            if abs(float(o) - b_) <= 1e-9 * abs(b_):
+                on_bound.append("offset=%r ~ %r" % (float(o), b_))
+    ctx.count("e2e_bound_test", bucket="binding" if on_bound else "free")
+    if on_bound and r.success:
+        fail(ctx, "e2e: success although a returned wall parameter sits on a configured bound "
+                  "(%s) [%s]" % ("; ".join(on_bound), label),
+             dict(kind="e2e", params=params, Tn=TN, errTol=errTol, M=M, maxIter=maxIter,
+                  configEOM=conf, label=label, result=summary(r)), key="saturated-success")
     # flag soundness of the real wallPressure: a success means the LAST evaluation claimed
     # convergence; the sign test below is then made against a reference EOM whose inner
     # iteration may run to convergence (maxIterations >= 50)
@@ -1429,8 +1636,36 @@ def e2e_tolerance(ctx, errTol, params=POINT_A, M=20, maxIter=None):
                                                           calls[-1]["tprofOk"], label),
              dict(kind="e2e", params=params, Tn=TN, errTol=errTol, M=M, maxIter=maxIter,
                   label=label), key="label")
-    e2e_sign_and_window(ctx, params, errTol, r, label, M, calls=calls, maxIter=maxIter)
+    e2e_sign_and_window(ctx, params, errTol, r, label, M, calls=calls, maxIter=maxIter,
+                        conf=conf)
     return summary(r)
+
+
+def e2e_detonation_history(ctx):
+    """inner iteration capped at 3: solveWall is ERROR (not converged); an interleaved
+    solveWallDetonation must change neither the config nor that answer"""
+    S = settings()
+    m, model = new_manager(POINT_A, 1e-3, 20, maxIter=3)
+    set_point(m, model, POINT_A, TN)
+    rep = dict(kind="history-deton", errTol=1e-3, maxIter=3)
+    r1, _ = recorded_solve(m, S)
+    check_settings(ctx, m, S, r1, rep, "maxIterations=3, first solve")
+    with Unchanged(ctx, m, S, "solveWallDetonation (maxIterations=3)", rep):
+        try:
+            m.solveWallDetonation(S)
+        except Exception as e:   # noqa
+            ctx.log("solveWallDetonation (maxIterations=3) raised", repr(e))
+    r2, _ = recorded_solve(m, S)
+    check_settings(ctx, m, S, r2, rep, "maxIterations=3, after solveWallDetonation")
+    ctx.count("e2e_solve", dict(point="A", maxIter=3, history="deton"),
+              bucket="%s/%s" % (r2.solutionType.name, "ok" if r2.success else "fail"))
+    a, b = summary(r1), summary(r2)
+    if not same(a, b):
+        fail(ctx, "result depends on call history: maxIterations=3, solveWall gives %s/%s "
+                  "vw=%r; after an interleaved solveWallDetonation the same call gives %s/%s "
+                  "vw=%r" % (a["type"], a["message"][:40], a["vw"], b["type"],
+                             b["message"][:40], b["vw"]),
+             dict(rep, before=a, after=b), key="history")
 
 
 def e2e_tn_change(ctx):
@@ -1472,6 +1707,17 @@ def direct_validation(ctx):
                                                          (2, 1e-3), (8, 1e-5)):
             e2e_tolerance(ctx, tol, POINT_A, 20, maxIter=mi)
         ctx.log("e2e small maxIterations %.1fs" % (time.time() - t))
+        t = time.time()
+        e2e_detonation_history(ctx)
+        # configuration family: thickness bounds that bind; profiles frozen
+        e2e_tolerance(ctx, 1e-3, POINT_A, 20, conf=dict(wallThicknessBounds=[0.1, 7.0]))
+        e2e_tolerance(ctx, 1e-4, POINT_A, 20, conf=dict(conserveEnergyMomentum=False))
+        if not ctx.quick:
+            e2e_tolerance(ctx, 1e-3, POINT_A, 20, conf=dict(wallThicknessBounds=[9.5, 100.0]))
+            e2e_tolerance(ctx, 1e-3, POINT_B, 20, conf=dict(pressRelErrTol=0.01))
+            e2e_tolerance(ctx, 1e-3, POINT_B, 20, conf=dict(pressRelErrTol=0.5))
+            e2e_tolerance(ctx, 1e-3, POINT_B, 20, conf=dict(conserveEnergyMomentum=False))
+        ctx.log("e2e detonation history + configuration family %.1fs" % (time.time() - t))
         if not ctx.quick:
             e2e_history(ctx, 1e-5)
             e2e_tn_change(ctx)
@@ -1584,6 +1830,7 @@ def replay(rep):
         if rep["kind"] == "history":
             e2e_history(c, rep["errTol"])
         else:
-            e2e_tolerance(c, rep["errTol"], rep["params"], rep.get("M", 20), rep.get("maxIter"))
+            e2e_tolerance(c, rep["errTol"], rep["params"], rep.get("M", 20), rep.get("maxIter"),
+                          rep.get("configEOM"))
         return 0
     return 0
